@@ -275,7 +275,7 @@ func splitNode[T any](n *node[T], pos int) (*node[T], error) {
 // 将所有的路由地址列表写入 routes
 func (n *node[T]) routes(routes map[string][]string) {
 	if n.methodIndex > 0 {
-		routes[n.Pattern()] = n.Methods()
+		routes[n.Pattern()] = getMethodIndexEntity(n.methodIndex).methods // 已经在锁的范围之内
 	}
 
 	for _, v := range n.children {
